@@ -53,6 +53,8 @@
 //! );
 //! ```
 
+#![allow(unexpected_cfgs)]
+
 mod ast_converter;
 mod frontend;
 pub mod generator;
@@ -61,6 +63,8 @@ mod parser;
 pub mod process;
 pub mod rules;
 mod utils;
+#[cfg(darklua_verif)]
+pub mod verif_hooks;
 
 pub use frontend::{
     convert_data, process, BundleConfiguration, Configuration, DarkluaError, GeneratorParameters,
